@@ -345,6 +345,11 @@ def run(rep: common.Report):
         obs5, _ = C05.line_obligations(rep, findings, PID, {"Q5"})
         for ob in obs5:
             rep.add(ob)
+    # the property pipeline runs through the lines layer: the text reaches the parser again only if folding is undone exactly (C06.P4 /
+    # P5); C06's obligations are re-run on this tree as a lemma, a refutation there is reported by C06's own check
+    from props import C01 as _C01
+    for ob in _C01.import_lemmas(rep, rep.tier, plan=[("Q6", "C06", lambda o: True, "folding undone exactly, lines round trip")], pid=PID):
+        rep.add(ob)
     from props import C08_bnd
     b = Bounded("C08.bnd.real_parameters", "parser:Parameters / Contentline / Event property (real)", C08_bnd.BOUND[rep.tier])
     t0 = time.time()
